@@ -94,7 +94,7 @@ def reInteger (s : List Char) : Option (List Char × List Char) :=
 
 /-- The function names of `(sin|cos|tan|exp|ln|sqrt)`, in the order of the alternation. -/
 def funNames : List (List Char) :=
-  ["sin".toList, "cos".toList, "tan".toList, "exp".toList, "ln".toList, "sqrt".toList]
+  [['s', 'i', 'n'], ['c', 'o', 's'], ['t', 'a', 'n'], ['e', 'x', 'p'], ['l', 'n'], ['s', 'q', 'r', 't']]
 
 /-- `^\s*(sin|cos|tan|exp|ln|sqrt)\s*\(`: leftmost-first over the alternation, backtracking to the next
 name when the tail `\s*\(` does not match. -/
@@ -299,12 +299,12 @@ def evalWith {F} (I : FloatOps F) (params : List (List Char × F)) : Expr → Ex
   | .power a b => do let x ← evalWith I params a; let y ← evalWith I params b; pure (I.powf x y)
   | .function name a => do
     let x ← evalWith I params a
-    if name = "sin".toList then pure (I.sin x)
-    else if name = "cos".toList then pure (I.cos x)
-    else if name = "tan".toList then pure (I.tan x)
-    else if name = "exp".toList then pure (I.exp x)
-    else if name = "ln".toList then pure (I.ln x)
-    else if name = "sqrt".toList then pure (I.sqrt x)
+    if name = ['s', 'i', 'n'] then pure (I.sin x)
+    else if name = ['c', 'o', 's'] then pure (I.cos x)
+    else if name = ['t', 'a', 'n'] then pure (I.tan x)
+    else if name = ['e', 'x', 'p'] then pure (I.exp x)
+    else if name = ['l', 'n'] then pure (I.ln x)
+    else if name = ['s', 'q', 'r', 't'] then pure (I.sqrt x)
     else .error (.unknownFunction name)
   | .variable name =>
     match lookup name params with
